@@ -1,6 +1,6 @@
 (* C13 -- The three HTML policies differ only at the HTML elements (partial).  Property theorems only. *)
 From Rimu Require Import Base Regex RegexParse Str Types Tables Guards State Inline Block
-  Frame FrameBlock FrameInst OptionsLemmas MiscLemmas Plain PlainDoc HtmlTag ParaDoc TagDoc.
+  Frame FrameBlock FrameInst OptionsLemmas MiscLemmas Plain PlainDoc HtmlTag ParaDoc TagDoc RegexAnalysis QuoteBlock ParaInstances.
 
 (* the policy is a function of the two low bits of the safe mode only *)
 Theorem C13_policy_bits : forall m,
@@ -72,3 +72,13 @@ Proof.
   - eexists _, _. split; [reflexivity|]. split; [reflexivity|]. split; [intros x Hx; vm_compute in Hx; intuition; subst; reflexivity|split; discriminate].
   - intros x Hx. vm_compute in Hx. vm_compute. intuition.
 Qed.
+
+(* INSIDE A CONTAINER the policies still differ at the tag and nowhere else: a quote block holding the line pre<name>post renders
+   to <blockquote><p>pre F post</p></blockquote> with F what the policy makes of the tag; the delimiters, the paragraph and the
+   surrounding text are the same under every policy *)
+Theorem C13_tag_in_quote_block : forall n c pre name post s,
+  quiet_default s -> In c word_first -> over word2_alphabet (c :: pre) -> name_ok2 name -> over word2_alphabet name -> over word2_alphabet post ->
+  doc_render (S (S (S (S (S (S (S n))))))) (qfence ++ 10 :: ((c :: pre) ++ 60 :: name ++ 62 :: post) ++ 10 :: qfence) s =
+  Ok ($"<blockquote><p>" ++ ((c :: pre) ++ htmlSafeModeFilter (ienv_of s) (60 :: name ++ [62]) ++ post) ++ $"</p></blockquote>", quote_open s).
+Proof. exact quote_tag_paragraph. Qed.
+Print Assumptions C13_tag_in_quote_block.
